@@ -320,18 +320,52 @@ fn check_committee(c: &Committee, tier: Tier) -> Out {
                     ReplicaTimeout { view: tv, high_vote: None, high_qc: Some(y) }
                 }, false),
                 ("high_vote of another genesis", ReplicaTimeout { view: tv, high_vote: Some(ReplicaCommit { view: View { genesis: cx.other_genesis, ..hv.view }, ..hv.clone() }), high_qc: None }, false),
+                ("high_qc for the same view and block as the genuine one, all signer bits set, a single signature", {
+                    let mut y = CommitQC::new(hq_msg.clone(), &c.schedule);
+                    for j in 0..n {
+                        y.signers.0.set(j, true);
+                    }
+                    y.signature.add(&c.keys[i].sign_msg(hq_msg.clone()).sig);
+                    ReplicaTimeout { view: tv, high_vote: None, high_qc: Some(y) }
+                }, n == 1),
             ];
+            let t3 = ReplicaTimeout { view: tv, high_vote: None, high_qc: Some(high_qc.clone()) };
             for (name, bm, nested_ok) in bad_nested {
-                let mut x = TimeoutQC::new(tv);
-                for j in 0..n {
-                    if mask >> j & 1 == 1 {
-                        let m = if j == i { bm.clone() } else { tvars[j % 2].clone() };
-                        let e = x.map.entry(m.clone()).or_insert_with(|| Signers::new(n));
-                        e.0.set(j, true);
-                        x.signature.add(&c.keys[j].sign_msg(m).sig);
+                // alone, and next to another signer's vote that carries a GENUINE high_qc for the same
+                // view (a verifier that checks "one certificate per view" would skip the bad one); the
+                // bad vote with and without a high vote, so that it sorts before and after the genuine one
+                let companion = (0..n).find(|j| *j != i && mask >> j & 1 == 1);
+                for with_companion in [0usize, 1, 2] {
+                    for with_high_vote in [false, true] {
+                        if with_companion > 0 && companion.is_none() {
+                            continue;
+                        }
+                        let mut bm2 = bm.clone();
+                        if with_high_vote {
+                            if bm2.high_vote.is_some() {
+                                continue;
+                            }
+                            bm2.high_vote = Some(hv.clone());
+                        }
+                        let mut x = TimeoutQC::new(tv);
+                        for j in 0..n {
+                            if mask >> j & 1 == 1 {
+                                let m = if j == i {
+                                    bm2.clone()
+                                } else if with_companion > 0 && Some(j) == companion {
+                                    // the genuine certificate with / without a high vote: sorts after / before the bad vote
+                                    if with_companion == 1 { t2.clone() } else { t3.clone() }
+                                } else {
+                                    tvars[j % 2].clone()
+                                };
+                                let e = x.map.entry(m.clone()).or_insert_with(|| Signers::new(n));
+                                e.0.set(j, true);
+                                x.signature.add(&c.keys[j].sign_msg(m).sig);
+                            }
+                        }
+                        variants.push((format!("signer {i}'s vote carries {name} (genuinely signed){}{}", if with_high_vote { ", with a high vote" } else { "" }, match with_companion { 0 => "", 1 => ", next to another signer's vote (with a high vote) carrying a genuine high_qc of the same view", _ => ", next to another signer's vote (without a high vote) carrying a genuine high_qc of the same view" }), x, Some(valid && nested_ok)));
                     }
                 }
-                variants.push((format!("signer {i}'s vote carries {name} (genuinely signed)"), x, Some(valid && nested_ok)));
             }
         }
         // two groups sharing a signer
